@@ -7,7 +7,7 @@ var siblings = map[string][]string{
 	"uleafptr": {"goerr", "uoptleaf", "rleaf"}, "hint": {"detail"}, "detail": {"hint"}, "uwrapnofmt": {"uwrapcause", "goerrorf", "pkgmsg"},
 	"uopt": {"uwrapoverride", "rwrapfull"}, "uwrapoverride": {"uopt", "rwrapfull"}, "uoptleaf": {"uleafptr", "goerr"}, "new": {"goerr"},
 	"goerrorf": {"uwrapnofmt", "pkgmsg", "withmsg"}, "pkgmsg": {"goerrorf", "uwrapnofmt"}, "handled": {"domhandled"},
-	"join": {"gojoin"}, "gojoin": {"join"}, "rleaf": {"uleafptr"}, "uleafval": {"uleafptr"}, "uleafnc": {"uleafval"},
+	"join": {"gojoin", "subjoin"}, "subjoin": {"join", "gojoin"}, "gojoin": {"join"}, "rleaf": {"uleafptr"}, "uleafval": {"uleafptr"}, "uleafnc": {"uleafval"},
 	"grpcstatus": {"gogostatus"}, "gogostatus": {"grpcstatus"}, "domain": {"handleddomain"},
 }
 
